@@ -23,7 +23,7 @@ def run(rep):
     large = [(100, 1), (1, 100), (255, 3), (256, 5), (257, 2), (3, 300), (640, 2), (2, 513), (1000, 1), (129, 130)]
     # sizes beyond every power-of-two table or buffer size a conversion might use (8192, 16384, 32768 columns or rows)
     # (the extracted model and specification work on lists: quadratic in the row length, so only a few such sizes)
-    huge = [(8194, 2), (8200, 1), (2, 8200)] + ([] if quick else [(16390, 1), (1, 16390), (8193, 3)])
+    huge = [(8194, 2), (8200, 1), (2, 8200)] + ([] if quick else [(8193, 3), (3, 8195)])
     cs = vlib.Cases()
     k = 0
     for (w, h) in geoms + large + huge:
@@ -32,7 +32,7 @@ def run(rep):
         else:
             pairs = [pg.LEGAL[k % 15], pg.LEGAL[(k * 7 + 3) % 15]] if quick else pg.LEGAL[k % 15:k % 15 + 5] + pg.LEGAL[:max(0, k % 15 + 5 - 15)]
             if (w, h) in huge:
-                pairs = [(0, 8), (0, 1)] if quick else [(0, 8), (0, 1), (2, 8), (6, 16)]
+                pairs = [(0, 8), (0, 1)] if quick else [(0, 8), (0, 1), (6, 16)]
             k += 1
         for (ct, depth) in pairs:
             bpp = depth * pg.CHANNELS[ct]
